@@ -202,17 +202,28 @@ func loadKnown(prop string) []knownFinding {
 	return out
 }
 
-func runReplays(bin, work string, paths []string) ([]replayResult, error) {
+// runReplays evaluates saved cases through TestReplay. With regionsActive the
+// known-finding regions of KNOWN_FINDINGS.txt apply (as in the rapid runs);
+// without it they do not, which is how the witness of a recorded finding is
+// shown to fail still.
+func runReplays(bin, work string, paths []string, regionsActive bool) ([]replayResult, error) {
 	if len(paths) == 0 {
 		return nil, nil
 	}
 	dir := filepath.Join(work, "replay")
+	if !regionsActive {
+		dir = filepath.Join(work, "replay-known")
+	}
 	os.MkdirAll(dir, 0o755)
 	ctx, cancel := context.WithTimeout(context.Background(), 10*time.Minute)
 	defer cancel()
 	cmd := exec.CommandContext(ctx, bin, "-test.run", "^TestReplay$", "-test.timeout", "0")
 	cmd.Dir = dir
-	cmd.Env = append(os.Environ(), "VERIF_OUT="+dir, "VERIF_REPLAY="+strings.Join(paths, ":"), "VERIF_KNOWN="+filepath.Join(root, "KNOWN_FINDINGS.txt"), "GORACE=halt_on_error=1 exitcode=66")
+	knownFile := filepath.Join(root, "KNOWN_FINDINGS.txt")
+	if !regionsActive {
+		knownFile = ""
+	}
+	cmd.Env = append(os.Environ(), "VERIF_OUT="+dir, "VERIF_REPLAY="+strings.Join(paths, ":"), "VERIF_KNOWN="+knownFile, "GORACE=halt_on_error=1 exitcode=66")
 	out, err := cmd.CombinedOutput()
 	b, rerr := os.ReadFile(filepath.Join(dir, "replay-results.json"))
 	if rerr != nil {
@@ -250,7 +261,7 @@ func doReplay(path string, keep bool) int {
 		defer os.RemoveAll(work)
 	}
 	bin, _ := build(work, props[rf.Property].Race)
-	res, err := runReplays(bin, work, []string{abs})
+	res, err := runReplays(bin, work, []string{abs}, true)
 	if err != nil || len(res) != 1 {
 		fmt.Printf("INFRASTRUCTURE: %v\n", err)
 		return 2
@@ -294,16 +305,21 @@ func runProperty(id string, p propSpec, tier string, seed uint64, keep bool) int
 	regs, _ := filepath.Glob(filepath.Join(root, "regressions", id+"-*.json"))
 	sort.Strings(regs)
 	known := loadKnown(id)
-	paths := append([]string{}, regs...)
-	for _, k := range known {
-		if k.Witness != "" {
-			paths = append(paths, filepath.Join(root, k.Witness))
-		}
-	}
-	res, err := runReplays(bin, work, paths)
+	res, err := runReplays(bin, work, regs, true)
 	if err != nil {
 		fatal2("%v", err)
 	}
+	var knownPaths []string
+	for _, k := range known {
+		if k.Witness != "" {
+			knownPaths = append(knownPaths, filepath.Join(root, k.Witness))
+		}
+	}
+	kres, err := runReplays(bin, work, knownPaths, false)
+	if err != nil {
+		fatal2("%v", err)
+	}
+	res = append(res, kres...)
 	regSet := map[string]bool{}
 	for _, r := range regs {
 		regSet[r] = true
